@@ -71,7 +71,7 @@ def run(tier, replay):
         with open(bf, "w") as f:
             for b in beh:
                 f.write(json.dumps(b) + "\n")
-        lib.kverif("auth", ["c37", "--out", obs, "--behaviours", bf], timeout=3000)
+        lib.kverif("auth", ["c37", "--out", obs, "--behaviours", bf], timeout=7000)
         lib.kverif("auth", ["c37", "--out", obsr, "--random", 40 if quick else 600, "--len", 14, "--seed", lib.seed()], timeout=3000)
         tv = lib.trace_validate("KAuthResetTrace", obs, PID, timeout=1500)
         tvr = lib.trace_validate("KAuthResetTrace", obsr, PID, cfg="KAuthResetTraceSec", timeout=1500, tag="KAuthResetTraceSec")
